@@ -15,7 +15,7 @@ HARNESS_TIMEOUT = 600
 DRIVER_TIMEOUT = 900
 EXHAUSTIVE = False
 
-spec_override, judge, classify, model_skip = P.make_hooks("C16", "G")
+spec_override, judge, classify = P.make_hooks("C16", "G")
 canon = P.canon
 
 
@@ -114,4 +114,4 @@ def cases(ctx):
             frame = frame[: rng.randint(0, len(frame))]
         steps = [s for s in P.random_read_script(rng, shapes[name]) if s != "W"]
         out.append(Case(P.pkt_line(frame, steps), ("random-reads", name)))
-    return out
+    return P.with_fix(ctx, out)
